@@ -43,13 +43,28 @@ class C05(Check):
     def generate(self, rng, tier):
         damage = rng.chance(0.55)
         mode = rng.choice(["fy", "fyD", "fy", "fyD", "bmap2extent", "fixes_only"]) if damage else rng.choice(list(MODES))
-        return {"world_seed": rng.u64(), "mode": mode, "damage": damage, "faults": None,
+        return {"world_seed": rng.u64(), "mode": mode, "damage": damage, "faults": None, "casefold": rng.chance(0.12),
                 "nfaults": rng.weighted([(1, 6), (2, 3), (3, 1)]), "fault_seed": rng.u64()}
 
     def execute(self, spec, wd):
         o = Outcome()
         rng = Rng(spec["world_seed"])
-        w = build_world(rng, wd, scale=1.6, big_dir=rng.weighted([(0, 2), (rng.range(40, 200), 3), (rng.range(300, 900), 2)]))
+        cfg = None
+        if spec.get("casefold"):
+            from world import gen_config
+            cfg = gen_config(rng, want=["casefold", "filetype", "extent"], avoid=("mmp",))
+        w = build_world(rng, wd, cfg=cfg, scale=1.6, big_dir=rng.weighted([(0, 2), (rng.range(40, 200), 3), (rng.range(300, 900), 2)]))
+        if not w["rejected"] and spec.get("casefold"):
+            # names that differ only in case, in an ordinary directory (without the +F flag they are different names)
+            from world import debugfs_script
+            hp = os.path.join(wd, "cfh")
+            with open(hp, "wb") as f:
+                f.write(b"casefold\n")
+            cmds = ['mkdir /cfdir'] + ['write "%s" "/cfdir/%s"' % (hp, n) for n in
+                                      ("Makefile", "makefile", "README", "ReadMe", "readme", "Docs", "docs", "a", "A")]
+            debugfs_script(w["img"], cmds, wd, tag="cf", rand_seed=9)
+            e2fsck(w["img"], ["-fy"], wd, tag="cfsettle", problems=False)
+            o.stats["probe.casefold_world"] += 1
         if w["rejected"]:
             o.stats["world.rejected"] += 1
             o.trace = "rejected"
